@@ -47,6 +47,7 @@ ORDER_OK = {
     (RTRAIT + "append_columns_with_borders", "pop"): "removes a trailing border line of a nested table (guarded by `if let Some(Line)`)",
     ("insert_child", "insert"): "inserts the marker / generated content at index 0 (ChildPosition::Start)",
     ("tree_map_reduce::{closure}", "pop"): "returns the single result of the root",
+    ("tree_map_reduce", "pop"): "the walk's own stack of unfinished parents (LIFO is the traversal: the innermost parent receives the finished child)",
     ("<markup5ever_rcdom::Node as std::ops::Drop>::drop", "pop"): "iterative destruction of a subtree (no rendering involved)",
     ("markup5ever_rcdom::remove_from_parent", "remove"): "upstream TreeSink: removes the node at the index get_parent_and_index found (enumerate().find by pointer identity)",
     ("<markup5ever_rcdom::RcDom as html5ever::tree_builder::TreeSink>::append_before_sibling", "insert"): "upstream TreeSink: inserts at the sibling's index",
@@ -660,8 +661,9 @@ def rule_g(ctx, only=None, rid="C03-G"):
             tys = " ".join([c.get("self_ty", "")] + c.get("targs", []))
             if "SelectorComponent" in tys and callee_method(t) == "reverse":
                 control += 1
-            if not any(s in tys for s in (only or SEQ_TYPES)):
-                continue
+            generic_walk = only is None and fn_key(b).startswith("tree_map_reduce") and "Vec<" in tys
+            if not any(s in tys for s in (only or SEQ_TYPES)) and not generic_walk:
+                continue  # (the generic walk's vectors hold nodes and results under type parameters: all tracked)
             if tys.startswith("render::text_renderer::TextRenderer<"):
                 continue  # TextRenderer::pop itself is listed at its definition
             n += 1
